@@ -12,11 +12,18 @@ RULE = ("case = (generator type, construction path, jds, motif sizes, build call
         "zero size, unequal orbit counts) where model and code must raise the same exception class; a share of the random "
         "cases are HISTORIES: 2-3 generations on the same algorithm object and the same jds list object (contents "
         "replaced in place, the previously returned object damaged in between, identical repeats), every call judged "
-        "against the model on the current contents; inputs and configuration are deep-compared before/after. Compared: sequence "
+        "against the model on the current contents; inputs and configuration are deep-compared before/after; a REPEATED-TUPLE "
+        "stream (and four corpus entries): as many vertices as the motif size, equal degrees, shuffle answers dealing the "
+        "same ordered vertex tuple to every group of one topology, of several topologies with different library builders "
+        "(diamond + 4-cycle on the same four vertices) and of 2-3 generations on one object. Judged by three verified "
+        "checkers per generation: c01_check (calls), c01_check_results (every callback result is the builder's "
+        "specification applied to the arguments it got), c02_check on the EMITTED rows (edge list: the three columns; "
+        "network: rows read back from the graph for every vertex pair produced exactly once). Compared: sequence "
         "of (callback, argument list) calls, the three columns (network variant: the graph, exactly, against the composed "
         "model gen_network), joint_degrees, shuffle protocol. "
         "Non-trivial = a valid case with at least two callback calls; distinct by (type, jds, sizes, indices, pis)")
 EXHAUSTIVE = {"quick": True, "thorough": True}
+STATEFUL_IMPL = True     # core: a replay file is kept only if a FRESH process rejects it too (builders with memory)
 EXPLANATION = ("general theorems (all jds, sizes, callbacks, permutations) in Props/C01.v, incl. the network variant as "
                "the Coq composition of the generator model with the conversion model (C01_network_variant); the correspondence is "
                "exhaustive over the small family named in the rule (all permutations) and seeded-random beyond")
@@ -24,7 +31,10 @@ ASSUMPTIONS = ["random.shuffle(l) is the only randomness the generators use (enf
                "entry point raises during a run)",
                "iteration_utilities.grouper / itertools chain,starmap,repeat behave as modelled (results compared on every case)",
                "int(float(len)/size) == len // size for the list lengths in play (< 2**26)"]
-TRUSTED = ["build callbacks are observed through a logging wrapper (argument list and result of every call)"]
+TRUSTED = ["build callbacks are observed through a logging wrapper (argument list and result of every call)",
+           "network variant: the rows handed to c02_check are read back from the networkx graph in callback order; a vertex "
+           "pair the callbacks produced more than once is left out of results and rows alike (networkx keeps one "
+           "attribute set per pair; which one is compared with the composed model, not judged by the checker)"]
 PARTIAL = ['"the joint degree sequence is carried through unchanged" and "factory / main construction = direct construction" hold by construction of the model (definitional theorems); on the code they are established by the correspondence (both construction paths, deep before/after comparison)']
 TECHNIQUE = ("Coq proof (list induction / permutation and counting lemmas over an executable model, all shuffles "
              "quantified) + model/implementation correspondence with scripted shuffles + verified checker on the "
@@ -44,7 +54,13 @@ LEVEL_TEXT = (
     "NetworkToEdgeList on the generated network always succeeds and returns jds and one row per generated pair "
     "(the generated list itself when no pair repeats); C01_network_errors / _total: it fails exactly as the fast "
     "generator does. The checker c01_check is proved equivalent to the "
-    "Prop-level specification and is run on the real generators' logged callback calls (plus the proved-equivalent closedness test: every motif's edges use only its own stubs); the model is tied to "
+    "Prop-level specification and is run on the real generators' logged callback calls (plus the proved-equivalent closedness test: every motif's edges use only its own stubs). "
+    "The EMITTED motif instances are judged as well: c01_check_results (results_okb, proved equivalent to the relation "
+    "Results of the generator theorems: every logged callback result equals builder_of_code applied to the logged "
+    "arguments; C01_results_checker_iff, closed forms of clique / cycle / diamond in C01_*_builder_spec) and the C02 row "
+    "checker c02_check (proved sound and complete for the block specification in Props/C02.v) on the emitted columns resp. "
+    "on the rows read back from the generated network for every pair produced once (the clause 'a pair produced once "
+    "carries its row's name and id' of C01_network_variant). The model is tied to "
     "/repo by exact comparison under scripted shuffles (exhaustive small family, all permutations, all three "
     "types, all three construction paths).")
 LEVEL_NOTE = ("The network theorems speak about gen_network (Gallina composition), which is also extracted (entry "
@@ -77,6 +93,10 @@ def generate(rng, tier):
     # histories: several generations on ONE algorithm object and ONE jds list (stale state, caches, aliasing)
     for i in range(n // 2):
         yield G.history_case(rng, [G.FAST, G.MOTIFS, G.NETWORK, G.MOTIFS][i % 4])
+    # the library builders called repeatedly with equal ordered vertex tuples (within a topology, across topologies,
+    # across generations on one object)
+    for i in range(n // 5):
+        yield G.repeat_tuple_case(rng, [G.FAST, G.MOTIFS, G.NETWORK, G.MOTIFS][i % 4])
     # sizes / degrees / counts beyond the usual range (motif sizes 9..17, degrees up to 20, N up to 60)
     for i in range(n // 5):
         yield G.big_case(rng, [G.FAST, G.MOTIFS, G.NETWORK, G.MOTIFS][i % 4])
@@ -150,11 +170,30 @@ def compare(case, impl_obs, model):
     return None
 
 
+VACUOUS_ROWS = [0, [], [], [], [], []]      # c02_check answers 1 on it
+VACUOUS_RESULTS = [[], [], []]               # c01_check_results answers 1 on it
+
+
 def check_calls(case, impl_obs):
+    """three verified checkers per step: c01_check on the logged callback calls (counts / group sizes / stub slots /
+    joint_degrees / vertex range / closedness), c01_check_results on the callbacks' results (each IS the builder's
+    specification applied to the arguments it got), c02_check on the EMITTED rows (edge list: the three columns;
+    network: the rows read back from the graph for every pair produced once) against the logged results"""
     steps = G.steps_of(case)
     if not isinstance(impl_obs, dict):
         return [("c01_check", G.c01_check_tree(st, ["!exc", "x"])) for st in steps]
-    return [("c01_check", G.c01_check_tree(st, o)) for st, o in zip(steps, impl_obs["steps"])]
+    calls = []
+    for st, o in zip(steps, impl_obs["steps"]):
+        calls.append(("c01_check", G.c01_check_tree(st, o)))
+        t = G.results_check_tree(st, o)
+        calls.append(("c01_check_results", t if t is not None else VACUOUS_RESULTS))
+        t = G.c02_check_tree(st, o)
+        calls.append(("c02_check", t if t is not None else VACUOUS_ROWS))
+    return calls
+
+
+def st_code(case, j):
+    return case["codes"][j] if 0 <= j < len(case["codes"]) else G.NONE
 
 
 def check_verdict(case, impl_obs, raws):
@@ -164,13 +203,32 @@ def check_verdict(case, impl_obs, raws):
         if raws and all(v != 2 for v in raws) and G.config_total(case):
             return "implementation raised %s on a handshake-consistent input" % impl_obs[1]
         return None
-    for i, v in enumerate(raws):
+    total = G.config_total(case)
+    for i in range(len(steps)):
+        v, v_res, v_rows = raws[3 * i:3 * i + 3]
+        where = "" if len(steps) == 1 else " (call %d of %d on the same algorithm object)" % (i + 1, len(steps))
+        if v_res != 1:
+            o = impl_obs["steps"][i]
+            hint = ""
+            for k, ((j, args), (_, sh)) in enumerate(zip(o["calls"], o["results"])):
+                want = G.n_edges(st_code(case, j), len(args))
+                got = len(sh[1]) if sh and sh[0] == 0 else 1
+                if isinstance(want, int) and want != got and st_code(case, j) != G.CLIQUENL:
+                    hint = " (call %d: %s on %r returned %d edges)" % (k, G.BUILDER_NAMES[st_code(case, j)], args, got)
+                    break
+            return ("c01_check_results rejected the callbacks' results%s: a motif instance is not what its build callback "
+                    "specifies for the stubs it was given%s" % (where, hint))
         if v == 2:
             continue       # hypotheses of C01 not met: nothing claimed (the correspondence still applies)
         if v != 1:
-            where = "" if len(steps) == 1 else " (call %d of %d on the same algorithm object)" % (i + 1, len(steps))
             return ("c01_check rejected the observed run%s: motif counts / group sizes / stub slots / "
                     "joint_degrees / vertex range" % where)
+        if total and v_rows != 1:
+            what = ("the rows read back from the graph (pairs produced once)" if case["tag"] == G.NETWORK
+                    else "the emitted columns (lengths %d/%d/%d)" % tuple(len(impl_obs["steps"][i].get(f, []))
+                                                                         for f in ("edges", "names", "ids")))
+            return ("c02_check rejected %s%s: the emitted rows are not, block by block, the edges the build callbacks "
+                    "returned for the drawn stubs with their topology's name and one private id per instance" % (what, where))
     return None
 
 
